@@ -50,7 +50,7 @@ theorem stack_bounded_step (cx : Ctx) (ht : TableOk cx.table) (ro : Bool) (fr : 
 -- non-vacuity: the hypothesis is satisfiable — ADD on a two-word stack passes the validation
 set_option maxRecDepth 20000 in
 example : ∃ info fr1 args g1 cgt,
-    stepPre demoCtx false { (mkFrame #[0x01] 1000 0 0 0 #[]) with stack := [1, 2] } ⟨[], 0, #[]⟩
+    stepPre demoCtx false { (mkFrame #[0x01] 1000 0 0 0 #[]) with stack := [1, 2] } (Global.start [])
       = .ok info fr1 args g1 cgt := ⟨_, _, _, _, _, rfl⟩
 
 /-! ## depth_bounded -/
